@@ -726,9 +726,13 @@ class Executor(ExprMixin, CallMixin):
             return outs
         n, elem = view
         inv = spec.inv if spec is not None else None
+        invp = spec.inv_point if spec is not None else None
         if inv is not None:
             g0 = inv(LoopCtx(self, st, z3.IntVal(0), entry, it))
             self.add_vc("inv-init", label, st.pc, g0, loc=self.loc(s))
+        if invp is not None:
+            j0 = z3.Int(fresh_name("j0"))
+            self.add_vc("inv-init", label + ".pointwise", st.pc, invp(LoopCtx(self, st, z3.IntVal(0), entry, it), j0), loc=self.loc(s))
         # arbitrary iteration
         body_st = st.fork()
         self.havoc_loop_state(body_st, s.body, spec)
@@ -739,12 +743,23 @@ class Executor(ExprMixin, CallMixin):
         # `after` shares the havocked variables but not the i-range assumption
         if inv is not None:
             body_st.assume(self._b(inv(LoopCtx(self, body_st, i, entry, it))))
+        head_st = body_st.fork() if invp is not None else None       # the state at the loop head of this iteration
+        if invp is not None:
+            jq = z3.Int(fresh_name("jq"))
+            q_hyp = z3.ForAll([jq], self._b(invp(LoopCtx(self, head_st, i, entry, it), jq)))
+            body_st.assume(q_hyp)
         for s3 in self.assign(s.target, elem(i), body_st):
             for o in self.exec_block(s.body, s3):
                 if o.kind in ("fall", "continue"):
                     if inv is not None:
                         g = inv(LoopCtx(self, o.st, i + 1, entry, it))
                         self.add_vc("inv-preserve", label, o.st.pc, g, loc=self.loc(s))
+                    if invp is not None:
+                        j0 = z3.Int(fresh_name("j0"))
+                        hyps = [self._b(invp(LoopCtx(self, head_st, i, entry, it), j0 + d)) for d in spec.inst_offsets]
+                        # the quantified form of the hypothesis is replaced by its instances (keeps the query small and stable)
+                        self.add_vc("inv-preserve", label + ".pointwise", [p_ for p_ in o.st.pc if p_ is not q_hyp] + hyps,
+                                    invp(LoopCtx(self, o.st, i + 1, entry, it), j0), loc=self.loc(s))
                 elif o.kind == "break":
                     outs.append(Outcome("fall", o.st))
                 else:
@@ -753,6 +768,9 @@ class Executor(ExprMixin, CallMixin):
         if inv is not None:
             after.assume(n >= 0)
             after.assume(self._b(inv(LoopCtx(self, after, n, entry, it))))
+        if invp is not None:
+            jq = z3.Int(fresh_name("jq"))
+            after.assume(z3.ForAll([jq], self._b(invp(LoopCtx(self, after, n, entry, it), jq))))
         if self._has_yield(s.body):
             after.ghost["yield_count_unknown"] = True
         if s.orelse:
